@@ -9,6 +9,7 @@
 #include <foonathan/memory/detail/ilog2.hpp>
 #include <foonathan/memory/detail/memory_stack.hpp>
 #include <foonathan/memory/detail/small_free_list.hpp>
+#include <foonathan/memory/memory_pool_collection.hpp>
 
 #include "common/prng.hpp"
 #include "common/report.hpp"
@@ -17,9 +18,56 @@ using namespace vf;
 using namespace foonathan::memory;
 using u128 = unsigned __int128;
 
+// collections with static storage duration, defined before anything else in the program uses a collection: bucket selection must be
+// the same as for an object created in main (group buckets, kind static-storage-duration)
+namespace globals
+{
+    memory_pool_collection<node_pool, identity_buckets>       ni(64, 16384);
+    memory_pool_collection<node_pool, log2_buckets>           nl(64, 16384);
+    memory_pool_collection<array_pool, identity_buckets>      ai(64, 16384);
+    memory_pool_collection<array_pool, log2_buckets>          al(64, 16384);
+    memory_pool_collection<small_node_pool, identity_buckets> si(64, 16384);
+    memory_pool_collection<small_node_pool, log2_buckets>     sl(64, 16384);
+} // namespace globals
+
 namespace
 {
     long long evals = 0, distinct = 0, unjudged = 0;
+
+    template <class Coll>
+    void check_global(Coll& g, const char* name)
+    {
+        Coll local(64, 16384);
+        if (g.max_node_size() != local.max_node_size())
+            viol("C19", fmt("C19/buckets-static<%s>/max-node-size", name),
+                 "a collection with static storage duration created for nodes up to 64 bytes reports max_node_size() %zu, the same object created in main %zu",
+                 g.max_node_size(), local.max_node_size());
+        // the bucket chosen for a size has nodes at least that large: nodes of one size do not overlap and keep their contents
+        for (std::size_t s = 1; s <= 64; ++s)
+        {
+            unsigned char* p[4];
+            for (int i = 0; i < 4; ++i)
+            {
+                p[i] = static_cast<unsigned char*>(g.allocate_node(s));
+                std::memset(p[i], int(16 * i + 1), s);
+            }
+            for (int i = 0; i < 4; ++i)
+            {
+                for (int j = i + 1; j < 4; ++j)
+                    if (p[i] < p[j] + s && p[j] < p[i] + s)
+                        viol("C19", fmt("C19/buckets-static<%s>/node-smaller-than-size", name),
+                             "two live nodes of %zu bytes from a collection with static storage duration are %ld bytes apart: the bucket's nodes are smaller "
+                             "than the size it was chosen for",
+                             s, long(p[j] - p[i]));
+                for (std::size_t k = 0; k < s; ++k)
+                    if (p[i][k] != (unsigned char)(16 * i + 1))
+                        viol("C19", fmt("C19/buckets-static<%s>/node-smaller-than-size", name), "contents of a live %zu-byte node changed", s);
+            }
+            for (int i = 0; i < 4; ++i)
+                g.deallocate_node(p[i], s);
+            ++evals;
+        }
+    }
 
     // --- definitional references (loops / 128-bit arithmetic, no bit tricks) ---
     bool ref_round_up(std::uint64_t size, std::uint64_t al, std::uint64_t& out)
@@ -203,8 +251,9 @@ int main(int argc, char** argv)
         else if (a.group == "buckets")
             run_case("buckets", c, [&] {
                 // chunk c = max node size variant
-                static const std::size_t maxes[] = {4096, 4095, 4097, 1000, 129, 64, 17, 8};
-                auto                     m       = maxes[c % 8];
+                // (a maximum below the lists' minimum node size is a valid node size too)
+                static const std::size_t maxes[] = {4096, 4095, 4097, 1000, 129, 64, 17, 8, 7, 5, 4, 3, 2, 1, 9, 16};
+                auto                     m       = maxes[c % 16];
                 op("every size 1..%zu, three lists x identity/log2", m);
                 check_buckets<detail::free_memory_list, detail::identity_access_policy>("node", "identity", std::min<std::size_t>(m, 1024));
                 check_buckets<detail::ordered_free_memory_list, detail::identity_access_policy>("ordered", "identity", std::min<std::size_t>(m, 1024));
@@ -212,6 +261,17 @@ int main(int argc, char** argv)
                 check_buckets<detail::free_memory_list, detail::log2_access_policy>("node", "log2", m);
                 check_buckets<detail::ordered_free_memory_list, detail::log2_access_policy>("ordered", "log2", m);
                 check_buckets<detail::small_free_memory_list, detail::log2_access_policy>("small", "log2", m);
+                flag("buckets");
+            });
+        else if (a.group == "buckets-static")
+            run_case("buckets-static", c, [&] {
+                op("collections with static storage duration, every size 1..64");
+                check_global(globals::ni, "node,identity");
+                check_global(globals::nl, "node,log2");
+                check_global(globals::ai, "array,identity");
+                check_global(globals::al, "array,log2");
+                check_global(globals::si, "small,identity");
+                check_global(globals::sl, "small,log2");
                 flag("buckets");
             });
     }
